@@ -27,3 +27,8 @@ Example C05_nonvacuous :
   decode KMessage (mkP false 9 [0; 12; 0; 1; 0; 2; 7; 0; 0; 0; 1; 0; 0; 0]) = Fail CUnknownEnumVariant /\
   decode KMessage (mkP false 9 [0; 12; 0; 1; 0; 2; 3; 0; 0; 0; 5; 0; 0; 0]) = Fail CUnknownEnumVariant.
 Proof. repeat split; reflexivity. Qed.
+
+(* the extracted checker ok_C05 accepts the model's observation for every decoder and every packet of bytes *)
+Require Import RP.Glue.Wire RP.Glue.StreamDEC RP.Lemmas.GlueLemmas.
+Theorem C05_checker_accepts_model : forall k p, wf_packet p = true -> ok_C05 (code k :: show_packet p) (run_DEC (code k :: show_packet p)) = [].
+Proof. exact ok_C05_accepts_model. Qed.
